@@ -850,6 +850,7 @@ func runC11x(c *Ctx) error {
 		c.Meta("c11_baseline_bumps", strconv.Itoa(env.baseBumps))
 	}
 	defer finish()
+	defer c11RealClose()
 	if c.Only != "" {
 		k, err := c11Parse(c.Only)
 		if err != nil {
